@@ -259,4 +259,73 @@ theorem writeSetV2PagedC_spec (P : Nat) (hP : 0 < P) (crc : Bytes → Nat) (comp
   obtain ⟨pb', k1, k2, k3, k4⟩ := writeSetPagedWith_spec P hP _ pb hc hb pb2 bytes g1 g3 g4 g5
   exact ⟨pb', bytes, k1, g2, k2, k3, k4⟩
 
+/-! ### writeToVersion1 on the page buffer -/
+
+theorem messageV1Paged_spec (P : Nat) (hP : 0 < P) (crc : Bytes → Nat) (attrs now : Int) (i : Nat) (r : PRec) (pb : PB)
+    (hc : Contig P pb.pages) (hb : pb.base = 0) :
+    flat (messageV1Paged P crc attrs now i r pb) = flat pb ++ messageV1 crc attrs now i r ∧
+      Contig P (messageV1Paged P crc attrs now i r pb).pages ∧ (messageV1Paged P crc attrs now i r pb).base = 0 := by
+  simp only [messageV1Paged, messageV1, hb, Nat.zero_add]
+  generalize hF : flat pb = F
+  generalize hk : writeNullBytes r.key = K
+  generalize hv : writeNullBytes r.value = V
+  have h1 := writeAll_spec P hP [i64 (i : Int), i32 0, i32 0, i8 1, i8 attrs, i64 (effTime now r), K, V] pb hc
+  generalize writeAll P pb [i64 (i : Int), i32 0, i32 0, i8 1, i8 attrs, i64 (effTime now r), K, V] = pb1 at h1 ⊢
+  rw [hF] at h1
+  have hb1 : pb1.base = 0 := by rw [h1.2.2, hb]
+  have hf1 : flat pb1 = [F, i64 (i : Int), i32 0, i32 0, i8 1, i8 attrs, i64 (effTime now r), K, V].flatten ++ [] := by
+    rw [h1.1]; simp only [List.flatten_cons, List.flatten_nil, List.append_nil, List.append_assoc]
+  have hl1 : (flat pb1).length = F.length + (26 + K.length + V.length) := by
+    rw [hf1]
+    simp only [List.flatten_cons, List.flatten_nil, List.append_nil, List.length_append, i64_length, i32_length, i8_length]
+    omega
+  have hsz : pb1.base + (flat pb1).length - (F.length + 12) = 4 + (i8 1 ++ (i8 attrs ++ (i64 (effTime now r) ++ (K ++ V)))).length := by
+    rw [hb1, hl1]; simp only [List.length_append, i64_length, i8_length]; omega
+  rw [hsz]
+  generalize hC : crc (i8 1 ++ (i8 attrs ++ (i64 (effTime now r) ++ (K ++ V)))) = c
+  generalize hS : ((4 + (i8 1 ++ (i8 attrs ++ (i64 (effTime now r) ++ (K ++ V)))).length : Nat) : Int) = sz
+  have h2 := writeAt_step P hP pb1 (i32 sz) (F.length + 8) h1.2.1 hb1 (by simp; omega)
+  generalize writeAt P pb1 (i32 sz) (F.length + 8) = pb2 at h2 ⊢
+  have h3 := writeAt_step P hP pb2 (u32 c) (F.length + 12) h2.2.1 h2.2.2.1 (by simp; omega)
+  generalize writeAt P pb2 (u32 c) (F.length + 12) = pb3 at h3 ⊢
+  refine ⟨?_, h3.2.1, h3.2.2.1⟩
+  rw [h3.1, h2.1, hf1]
+  rw [patch_field' [] _ 2 (i32 sz) _ (by simp) (by simp [fieldLen]) (by simp [offsetOf])]
+  rw [patch_field' [] _ 3 (u32 c) _ (by simp [setAt]) (by simp [fieldLen, setAt]) (by simp [offsetOf, setAt])]
+  simp only [setAt, List.flatten_cons, List.flatten_nil, List.append_nil, List.append_assoc]
+
+theorem writeV1Paged_spec (P : Nat) (hP : 0 < P) (crc : Bytes → Nat) (attrs now : Int) :
+    ∀ (rs : List PRec) (i : Nat) (pb : PB), Contig P pb.pages → pb.base = 0 →
+      flat (writeV1Paged P crc attrs now i rs pb) = flat pb ++ writeV1 crc attrs now i rs ∧
+        Contig P (writeV1Paged P crc attrs now i rs pb).pages ∧ (writeV1Paged P crc attrs now i rs pb).base = 0
+  | [], _, pb, hc, hb => by simp [writeV1Paged, writeV1, hc, hb]
+  | r :: rs, i, pb, hc, hb => by
+    have h1 := messageV1Paged_spec P hP crc attrs now i r pb hc hb
+    have h2 := writeV1Paged_spec P hP crc attrs now rs (i + 1) _ h1.2.1 h1.2.2
+    simp only [writeV1Paged, writeV1]
+    exact ⟨by rw [h2.1, h1.1, List.append_assoc], h2.2.1, h2.2.2⟩
+
+/-- **the compressed v1 writer through the page buffer**: render in place, scan, compress, truncate, wrap -/
+theorem writeV1PagedC_spec (P : Nat) (hP : 0 < P) (crc : Bytes → Nat) (comp : Bytes → Bytes) (attrs now : Int)
+    (recs : List PRec) (pb : PB) (hc : Contig P pb.pages) (hb : pb.base = 0) :
+    flat (writeV1PagedC P crc comp attrs now recs pb) = flat pb ++ writeV1C crc comp attrs now recs ∧
+      Contig P (writeV1PagedC P crc comp attrs now recs pb).pages ∧ (writeV1PagedC P crc comp attrs now recs pb).base = 0 := by
+  have h1 := writeV1Paged_spec P hP crc (attrs - attrs % 8) now recs 0 pb hc hb
+  simp only [writeV1PagedC, writeV1C, hb, Nat.zero_add]
+  generalize writeV1Paged P crc (attrs - attrs % 8) now 0 recs pb = pb1 at h1 ⊢
+  generalize writeV1 crc (attrs - attrs % 8) now 0 recs = inner at h1 ⊢
+  have hs : scan P pb1 (flat pb).length (pb1.base + (flat pb1).length) = inner := by
+    rw [scan_eq P hP pb1 h1.2.1 _ _ (by rw [h1.2.2, h1.1]; simp), h1.2.2, Nat.sub_zero, Nat.zero_add, Nat.sub_zero, h1.1,
+      List.length_append]
+    exact seg_mid _ _
+  rw [hs]
+  have ht := truncate_spec P pb1 (flat pb).length h1.2.1
+  have htb : (truncate pb1 (flat pb).length).base = 0 := by
+    unfold truncate; split <;> exact h1.2.2
+  have h3 := messageV1Paged_spec P hP crc attrs now 0 ⟨0, none, some (comp inner), []⟩ (truncate pb1 (flat pb).length) ht.2 htb
+  refine ⟨?_, h3.2.1, h3.2.2⟩
+  rw [h3.1, ht.1, h1.1, List.take_left']
+  rfl
+
 end KV.Model.RecordWriter
+
